@@ -208,18 +208,37 @@ Proof.
   apply Forall_forall. intros kv _. apply lexes_all.
 Qed.
 
+(* ====================================================================== no Integer beyond the digit limit *)
+Lemma wbig_dict d : wbig (TDict d) = existsb (fun kv => wbig (snd kv)) d.
+Proof. reflexivity. Qed.
+Lemma wbig_list l : wbig (TList l) = existsb wbig l.
+Proof. reflexivity. Qed.
+
+Lemma wf_not_big : forall t, wf_tree t = true -> wbig t = false.
+Proof.
+  apply (tree_ind2 (fun t => wf_tree t = true -> wbig t = false)).
+  - intros d H W. rewrite wf_dict in W. apply andb_true_iff in W as [_ WE]. rewrite wbig_dict.
+    apply not_true_is_false. intro E. apply existsb_exists in E as (kv & Hin & B).
+    rewrite Forall_forall in H. unfold wf_entries in WE. rewrite forallb_forall in WE.
+    specialize (WE kv Hin). apply andb_true_iff in WE as [_ Wv]. rewrite (H kv Hin Wv) in B. discriminate.
+  - intros l H W. rewrite wf_list in W. rewrite wbig_list.
+    apply not_true_is_false. intro E. apply existsb_exists in E as (it & Hin & B).
+    rewrite Forall_forall in H. rewrite forallb_forall in W. rewrite (H it Hin (W it Hin)) in B. discriminate.
+  - intros t L W. destruct t; try discriminate; try reflexivity. cbn [wf_tree wf_leaf] in W. cbn [wbig]. rewrite W. reflexivity.
+Qed.
+
 (* ====================================================================== the round trip *)
 Theorem parse_write_indented d : wf_tree (TDict d) = true ->
   exists bs, write Indented d = Ok bs /\ parse bs = Ok d.
 Proof.
-  intros W. exists (wv (Some O) (TDict d)). split; [reflexivity|].
+  intros W. exists (wv (Some O) (TDict d)). split; [unfold write; rewrite (wf_not_big _ W); reflexivity|].
   unfold parse. rewrite tokens_of_indented by assumption. apply parse_tokens_container. exact W.
 Qed.
 
 Theorem parse_write_compact d : wf_tree (TDict d) = true ->
   exists bs, write Compact d = Ok bs /\ parse bs = Ok d.
 Proof.
-  intros W. exists (wentries None d). split; [reflexivity|].
+  intros W. exists (wentries None d). split; [unfold write; rewrite (wf_not_big _ W); reflexivity|].
   unfold parse. rewrite tokens_of_compact by assumption. apply parse_tokens_bare. exact W.
 Qed.
 
@@ -235,9 +254,11 @@ Proof.
     rewrite HW in H1. inversion H1; subst bs'. rewrite H2. exact HW.
 Qed.
 
-(* the writers never fail *)
-Theorem write_total ly d : exists bs, write ly d = Ok bs.
-Proof. destruct ly; eexists; reflexivity. Qed.
+(* the writers fail only for an Integer beyond CPython's digit limit *)
+Theorem write_total ly d : wbig (TDict d) = false -> exists bs, write ly d = Ok bs.
+Proof. intros H. unfold write. rewrite H. destruct ly; eexists; reflexivity. Qed.
+Theorem write_fails_only_big ly d e : write ly d = Err e -> e = ValueErr /\ wbig (TDict d) = true.
+Proof. unfold write. destruct (wbig (TDict d)); [intros H; inversion H; split; reflexivity|destruct ly; discriminate]. Qed.
 
 (* the string token is found whole, whatever follows it *)
 Theorem string_token_found p rest :
